@@ -535,19 +535,15 @@ theorem C11_cisco_leaves_port_channel_false :
   cisco_leaves_port_channel_false
 
 
-/-- a `switchport trunk allowed vlan …` row starts with one of the given command prefixes (`str.startswith(tuple)`) -/
-def keepsSwitchportRows (prefixes : List String) : Bool :=
-  prefixes.any fun p => p.toList.isPrefixOf "switchport trunk allowed vlan 1".toList
-
-/-- THE MODEL'S TWO CONSTANTS ARE WHAT THE SOURCE SAYS (lists regenerated from the Python ASTs on every run,
-`Gen/IfaceLists.lean`): Cisco IOS does not keep a member's `switchport trunk allowed vlan` rows, NX-OS does
-(`switchportAllowedOnMember`), and NX-OS does not hide them from the old side when the port leaves its port-channel (so
+/-- THE MODEL'S CONSTANTS ARE WHAT THE SOURCE DOES (`Gen/IfaceLists.lean` is regenerated on every run by calling the real
+predicates on a `switchport trunk allowed vlan` row): Cisco IOS does not keep such a row of a port-channel member, NX-OS does
+(`switchportAllowedOnMember`), and NX-OS does not hide it from the old side when the port leaves its port-channel (so
 `cLeafIface .nexus` sees the old rows, as `C11_nexus_port_channel_member_exact` assumes). -/
 theorem C11_member_lists_as_modelled :
-    keepsSwitchportRows Annet.Gen.IfaceLists.ciscoAllowedOnChannel = switchportAllowedOnMember .cisco ∧
-    keepsSwitchportRows Annet.Gen.IfaceLists.nexusAllowedOnChannel = switchportAllowedOnMember .nexus ∧
-    keepsSwitchportRows Annet.Gen.IfaceLists.nexusHiddenFromOldOnLeave = false := by
-  decide +kernel
+    Annet.Gen.IfaceLists.ciscoKeepsSwitchportRows = switchportAllowedOnMember .cisco ∧
+    Annet.Gen.IfaceLists.nexusKeepsSwitchportRows = switchportAllowedOnMember .nexus ∧
+    Annet.Gen.IfaceLists.nexusHidesSwitchportRowsOnLeave = false := by
+  decide
 
 
 end Annet.Vlan
